@@ -172,7 +172,7 @@ func (p *Parser) ParseBlockStatement() *ast.BlockStatement {
 	p.NextToken()
 	for p.CurrentToken.Type != token.RBRACE && p.CurrentToken.Type != token.EOF {
 		stmt := p.statementParseFn(p)
-		if stmt != nil {
+		if !isNilStatement(stmt) {
 			block.Statements = append(block.Statements, stmt)
 		}
 		p.NextToken()
